@@ -32,7 +32,7 @@ def oracle(one, lnt, text, lf, fixed, add, res):
     after = lnt.lint_string(fixed)
     bad = [v for v in after.violations if v.rule_code() in ("TMP", "LXR", "PRS")]
     if bad:
-        add("unparsable_after_fix", {"code": bad[0].rule_code()}, {"fixed": fixed[:300], "err": bad[0].desc()[:200]})
+        add("unparsable_after_fix", {"code": bad[0].rule_code(), "new_double_dash": ("--" in fixed and "--" not in text)}, {"fixed": fixed[:300], "err": bad[0].desc()[:200]})
     res["cls"].add(digest((text, fixed)))
     return True
 
